@@ -348,6 +348,33 @@ Section Proofs.
     destruct (junction_phase_ext (mo_name m) gr am (incoming_phase qa (mo_name m) gr am (fk_phase qa m am (fold_left (add_key qa false) (mo_pk m) s0)))) as (Hi6 & _).
     apply Hi6, Hi5, H1.
   Qed.
+  (* the foreign key another model of the query expects on this model (its one_to_many / one_to_one relationship names this model) *)
+  Lemma incoming_foreign_key_projected m gr dims filters order_by am mfc jk om r fk :
+    In om gr -> In (fst om) am -> In r (snd om) -> cr_name r = mo_name m -> (cr_type r = "one_to_many" \/ cr_type r = "one_to_one") -> In fk (cr_fks r) -> 1 < length am ->
+    In fk (st_added (cte_keys_dims qa trunc parse m gr dims filters order_by am mfc jk)).
+  Proof.
+    intros Hom Hin Hr Hn Ht Hfk Hlen. unfold cte_keys_dims.
+    assert (Ham : match am with [] => [mo_name m] | _ => am end = am) by (destruct am; [simpl in Hlen; inversion Hlen | reflexivity]). rewrite Ham.
+    set (s0 := ([], [], needed_dims parse (mo_name m) dims filters order_by mfc) : st).
+    destruct (gran_phase_ext m dims (dim_phase qa trunc m (key_phases qa m gr am jk s0))) as (Hi1 & _). apply Hi1.
+    destruct (dim_phase_ext m (key_phases qa m gr am jk s0)) as (Hi2 & _). apply Hi2.
+    unfold key_phases.
+    match goal with |- In fk (st_added (fold_left ?f ?l ?s9)) => destruct (fold_ext f l (add_key_ext true) s9) as (Hi3 & _); apply Hi3 end.
+    apply Nat.ltb_lt in Hlen. rewrite Hlen.
+    set (s2 := fk_phase qa m am (fold_left (add_key qa false) (mo_pk m) s0)).
+    destruct (junction_phase_ext (mo_name m) gr am (incoming_phase qa (mo_name m) gr am s2)) as (Hi6 & _). apply Hi6.
+    unfold incoming_phase.
+    apply (fold_reaches _ gr om fk).
+    - intros s1 o1. destruct (mem (fst o1) am); [|apply ext_refl]. apply fold_ext. intros s3 r3.
+      match goal with |- context [if ?c then _ else _] => destruct c end; [|apply ext_refl]. apply fold_ext. intros; apply add_key_ext.
+    - exact Hom.
+    - intros s1. apply mem_In in Hin. rewrite Hin.
+      apply (fold_reaches _ (snd om) r fk).
+      + intros s3 r3. match goal with |- context [if ?c then _ else _] => destruct c end; [|apply ext_refl]. apply fold_ext. intros; apply add_key_ext.
+      + exact Hr.
+      + intros s3. rewrite Hn, String.eqb_refl. assert (Hty : (String.eqb (cr_type r) "one_to_one" || String.eqb (cr_type r) "one_to_many") = true) by (destruct Ht as [-> | ->]; reflexivity).
+        rewrite Hty. cbn [andb]. apply fold_add_key_in, Hfk.
+  Qed.
   Lemma join_key_projected m gr dims filters order_by am mfc l k :
     In k l -> In k (st_added (cte_keys_dims qa trunc parse m gr dims filters order_by am mfc (Some l))).
   Proof.
